@@ -246,7 +246,8 @@ fn main() {
         // activations: a call (PushRet + Jump) or a GOSUB starts a new one whose base is fixed by its
         // first observed instruction; PopRet / RETURN end it. Error edges are outside the static model:
         // tracing stops at the first handled error.
-        let mut acts: Vec<Option<Depth>> = vec![None];
+        // (kind of activation: 0 = main module, 5 = procedure call, 3 = GOSUB; its base depths)
+        let mut acts: Vec<(u8, Option<Depth>)> = vec![(0, None)];
         for (pc, d, _rd, _gd, err) in trace.iter() {
             if *err {
                 break;
@@ -263,7 +264,7 @@ fn main() {
                 break;
             };
             let base = Depth { v: d.v - rel.v, r: d.r - rel.r, c: d.c - rel.c, p: d.p - rel.p, b: d.b - rel.b };
-            let top = acts.last_mut().unwrap();
+            let top = &mut acts.last_mut().unwrap().1;
             match top {
                 None => *top = Some(base),
                 Some(b2) => {
@@ -281,13 +282,25 @@ fn main() {
                 }
             }
             match kinds[*pc] {
-                5 => acts.push(None), // call
-                3 => acts.push(None), // gosub
-                2 | 4 => {
+                5 => acts.push((5, None)), // call
+                3 => acts.push((3, None)), // gosub
+                2 => {
+                    // PopRet leaves the procedure, and with it every GOSUB routine still active inside it
+                    // (EXIT SUB in a GOSUB routine): the caller must find its depths as they were at the call
+                    while acts.len() > 1 && acts.last().unwrap().0 == 3 {
+                        acts.pop();
+                    }
                     if acts.len() > 1 {
                         acts.pop();
                     } else {
-                        break; // RETURN without GOSUB (a run-time error) or EXIT at top level
+                        break;
+                    }
+                }
+                4 => {
+                    if acts.len() > 1 && acts.last().unwrap().0 == 3 {
+                        acts.pop();
+                    } else {
+                        break; // RETURN without GOSUB in this activation (a run-time error, or a RETURN to a caller's GOSUB)
                     }
                 }
                 _ => {}
